@@ -22,7 +22,7 @@ RULE = ("A grid shape (line, 2-D, 3-D, degenerate zero-extent axes in any positi
 ASSUMPTIONS = ["a name in use is not re-added (replacement is not claimed)", "values avoid None/NaN (pandas rewrites them)",
                "|values| < 2^45 so that pandas keeps native dtypes"]
 LIVE = set()
-NAMES = ["c0", "c1", "c2", "c3"]
+NAMES = [f"c{i}" for i in range(80)]
 
 
 def configure(live):
@@ -78,6 +78,7 @@ def same(got, exp):
 
 
 def run_case(case):
+    NNAMES = max(1, min(int(case.get("names", 4)), 80))         # size of the name pool (large cases: dozens of live columns)
     world, (w, h, d) = build(case)
     ew, eh, ed = max(w, 1), max(h, 1), max(d, 1)
     cells = [(x, y, z) for z in range(ed) for y in range(eh) for x in range(ew)]
@@ -118,7 +119,7 @@ def run_case(case):
     for k, op in enumerate(case["ops"]):
         where = f"after op {k} {_short(op)}"
         if op["op"] == "add":
-            name = NAMES[int(op["name"]) % 4]
+            name = NAMES[int(op["name"]) % NNAMES]
             if name in live:
                 continue
             src = op["src"]
@@ -192,7 +193,7 @@ def run_case(case):
                     keep[i] = -777 if not isinstance(keep[i], (str, tuple, list)) else "overwritten"
                 labels.add("aliasing-probe")
         elif op["op"] == "remove":
-            name = NAMES[int(op["name"]) % 4]
+            name = NAMES[int(op["name"]) % NNAMES]
             if name in live:
                 if len(live) >= 2:
                     removed_with_two = True
@@ -209,7 +210,7 @@ def run_case(case):
             raise InvalidCase(op)
         verify(where)
     return {"nontrivial": multi_axis and nontrivial_src and removed_with_two,
-            "labels": sorted(labels) + [f"zero-axes-{''.join('0' if e == 0 else 'n' for e in (w, h, d))}"], "excluded": excluded}
+            "labels": sorted(labels) + (["columns>=32"] if NNAMES > 32 else []) + [f"zero-axes-{''.join('0' if e == 0 else 'n' for e in (w, h, d))}"], "excluded": excluded}
 
 
 def _short(op):
@@ -236,4 +237,20 @@ def strategy(tier):
                    st.fixed_dictionaries({"op": st.just("add"), "name": name, "src": src}),
                    st.fixed_dictionaries({"op": st.just("remove"), "name": name}),
                    st.fixed_dictionaries({"op": st.just("remove_unknown")}))
+    from vf.fixtures import near_pow2
+    small_shape = st.sampled_from([{"kind": "line", "w": 3, "h": 0, "d": 0}, {"kind": "grid", "w": 3, "h": 2, "d": 0},
+                                   {"kind": "discrete", "w": 2, "h": 0, "d": 3}])
+    cheap = st.fixed_dictionaries({"kind": st.sampled_from(["callable", "list", "array", "array", "const"]),
+                                   "mult": st.sampled_from([1, 3, -2]), "off": st.integers(-50, 50),
+                                   "vtype": st.sampled_from(["int", "float", "str"]), "lowdim": st.just(False), "numpy": st.just(False)})
+    many = near_pow2(31, 66).flatmap(lambda n: st.builds(
+        lambda s_, srcs, tail: dict(s_, names=n + 2, ops=[{"op": "add", "name": i, "src": srcs[i % len(srcs)]} for i in range(n)] + tail),
+        small_shape, st.lists(cheap, min_size=3, max_size=6),
+        sized_lists(wone_of(st.fixed_dictionaries({"op": st.just("add"), "name": st.integers(0, 79), "src": cheap}),
+                            st.fixed_dictionaries({"op": st.just("remove"), "name": st.integers(0, 79)})), 1, 6)))
+    small = _small(shape, op)
+    return wone_of(*([small] * 14 + [many]))
+
+
+def _small(shape, op):
     return st.builds(lambda s, ops: dict(s, ops=ops), shape, wone_of(sized_lists(op, 1, 14), sized_lists(op, 5, 14)))
